@@ -246,7 +246,7 @@ static std::string g_tmpdir;
 static std::string read_range(const std::string& path, long from, long to) {
     FILE* f = fopen(path.c_str(), "r"); if (!f) return "";
     if (to < from) to = from;
-    long n = std::min<long>(to - from, 6000);
+    long n = std::min<long>(to - from, 40000);
     std::string s(n, 0); fseek(f, from, SEEK_SET); size_t r = fread(&s[0], 1, n, f); s.resize(r); fclose(f); return s;
 }
 
@@ -384,6 +384,7 @@ int main(int argc, char** argv) {
                     execs++; perLevel[b]++;
                     pointsMax = std::max<uint64_t>(pointsMax, o.points.size());
                     if (o.contended) contendedSchedules++;
+                    cnt["scheduling_points"] += o.points.size();
                     uint64_t sig = 1469598103934665603ULL;
                     for (auto& p : o.points) { int chosen = p.enabled[(int)p.choice]; sig = (sig ^ (uint64_t)(chosen + 1)) * 1099511628211ULL; sig = (sig ^ (uint64_t)(p.kind + 7)) * 1099511628211ULL; }
                     signatures.insert(sig);
@@ -391,14 +392,25 @@ int main(int argc, char** argv) {
                     std::string oc; for (auto& d : o.digests) oc += d + "\x1f"; outcomes.insert(oc);
                     auto report = [&](const std::string& kind, const std::string& extra) {
                         cnt["violations"]++; cnt["violations:" + kind]++;
-                        if (viol.size() < 40) viol.push_back("{\"case\":" + std::to_string(execs) + ",\"kind\":" + jstr(kind) + ",\"scenario\":" + jstr(sc.name) + ",\"preemptions\":" + std::to_string(e.cost) + ",\"schedule\":" + jstr(choices) + extra + "}");
+                        if (viol.size() < 400) viol.push_back("{\"case\":" + std::to_string(execs) + ",\"kind\":" + jstr(kind) + ",\"scenario\":" + jstr(sc.name) + ",\"preemptions\":" + std::to_string(e.cost) + ",\"schedule\":" + jstr(choices) + extra + "}");
                     };
                     if (o.diverged) { cnt["harness_flaky"]++; report("replay-diverged", ""); }
                     if (o.overflow) cnt["trace_overflow"]++;
                     if (o.race) {
-                        std::string r = o.report; std::string where;
-                        size_t p1 = r.find("#0 "); if (p1 != std::string::npos) { size_t e1 = r.find('\n', p1); where = r.substr(p1, e1 - p1); size_t p2 = r.find("#0 ", e1); if (p2 != std::string::npos) { size_t e2 = r.find('\n', p2); where += " <-> " + r.substr(p2, e2 - p2); } }
-                        report("data-race", ",\"where\":" + jstr(where) + ",\"report\":" + jstr(r.substr(0, 2500)));
+                        // one violation per distinct racing pair (top frames of the two accesses) reported in this execution
+                        std::string r = o.report; std::set<std::string> seenPairs; size_t pos = 0; int nrep = 0;
+                        while ((pos = r.find("WARNING: ThreadSanitizer", pos)) != std::string::npos) {
+                            size_t endp = r.find("WARNING: ThreadSanitizer", pos + 10);
+                            std::string blk = r.substr(pos, endp == std::string::npos ? std::string::npos : endp - pos);
+                            pos += 10; nrep++;
+                            auto fn = [&](size_t from, size_t& after) { size_t p1 = blk.find("#0 ", from); if (p1 == std::string::npos) { after = std::string::npos; return std::string(); }
+                                size_t e1 = blk.find('\n', p1); after = e1; std::string line = blk.substr(p1 + 3, e1 - p1 - 3); size_t par = line.find(" /"); if (par != std::string::npos) line = line.substr(0, par); return line; };
+                            size_t aft = 0; std::string f1 = fn(0, aft), f2 = aft == std::string::npos ? std::string() : fn(aft, aft);
+                            std::string kindLine = blk.substr(0, blk.find('\n'));
+                            std::string where = f1 + " <-> " + f2;
+                            if (seenPairs.insert(where).second) report("data-race", ",\"where\":" + jstr(where) + ",\"tsan\":" + jstr(kindLine) + ",\"report\":" + jstr(blk.substr(0, 2200)));
+                        }
+                        if (nrep == 0) report("data-race", ",\"where\":\"unparsed\",\"report\":" + jstr(r.substr(0, 2200)));
                     }
                     if (o.deadlock) report("deadlock", ",\"report\":" + jstr(o.report.substr(0, 500)));
                     if (o.crash) report("crash", ",\"report\":" + jstr(o.report.substr(0, 2500)));
